@@ -196,6 +196,15 @@ def wl_random(ctx, rng, case):
                 ctx.check(hf(k, 5) == hf(kb, 5), f"{name}: text key hashes differently from its UTF-8 bytes", key=k)
         if isinstance(k, bytes) or k.isascii():
             check_fnv_key(ctx, H, kb, rng.sample(SEEDS, 5), text=k if isinstance(k, str) else None)
+        if isinstance(k, str) and not k.isascii():
+            # the UTF-8 bytes of a non-ASCII text are a DIFFERENT key for FNV-1a: hashing one spelling must not influence the other
+            for name in ("default_fnv_1a",):
+                b_first = strat[name](kb, 6)
+                t_after = strat[name](k, 6)
+                ctx.check(t_after == [H.fnv_1a(k, i) for i in range(6)] and b_first == refimpl.fnv_chain(kb, 6),
+                          f"{name}: hashing the UTF-8 bytes of a non-ASCII text changed the hashes of the text itself (or vice versa)", key=k)
+                ctx.check(strat[name](kb, 6) == b_first, f"{name}: not deterministic across spellings", key=k)
+            ctx.count("both_spellings_checked")
         # the default strategy is seeded FNV-1a per index for EVERY key type: default_fnv_1a(k, d)[i] == fnv_1a(k, i)
         chain = H.default_fnv_1a(k, 6)
         ctx.check(chain == [H.fnv_1a(k, i) for i in range(6)], "default_fnv_1a(key, d)[i] is not fnv_1a(key, i) (offset basis advanced by 31 per index)", key=k,
